@@ -68,6 +68,10 @@ def value(depth=0, max_depth=6):
             st.lists(st.integers(-1000, 1000), max_size=4).map(lambda v: ["array", "i", v]),
             st.lists(st.floats(allow_nan=False, allow_infinity=False, width=64), max_size=3).map(lambda v: ["array", "d", v]),
             st.text(st.sampled_from("abc'\"é"), max_size=4).map(lambda v: ["array", "u", list(v)]),
+            # arrays make their items on the fly (a new str / int / float object per access): longer ones, characters beyond Latin-1 (not interned), ints beyond the small-int cache
+            st.text(st.sampled_from("ab\u4f60\u597d\u4e16\u754c\U0001F600\U0001F680\u0142\u0301\n'"), min_size=2, max_size=12).map(lambda v: ["array", "u", list(v)]),
+            st.lists(st.integers(250, 70000), min_size=2, max_size=10).map(lambda v: ["array", "i", v]),
+            st.lists(st.floats(allow_nan=False, allow_infinity=False, width=64), min_size=2, max_size=8).map(lambda v: ["array", "d", v]),
         ),
     )
     # two mappings whose keys are equal but print differently ((1, 2) / (1.0, 2.0) / (True, 2)): each must show its own keys
